@@ -918,22 +918,27 @@ impl H {
 
     // ---- header and payload against the model
     self.rep.inc("oracle_checks");
-    let header_ok = bytes.len() == exp_len + 7 && &bytes[0..3] == b"DID" && bytes[3] == 1 && bytes[4] == 0;
+    let header_ok = bytes.len() >= 7 && &bytes[0..3] == b"DID" && bytes[3] == 1 && bytes[4] == 0;
     if !header_ok {
       self.rep.violation(
         "pack-header-wrong",
-        &format!("expected 'DID',1,0 and {} payload bytes; got header {:?} and {} bytes in total", exp_len, &bytes[..bytes.len().min(7)], bytes.len()),
+        &format!("expected 'DID',1,0,<u16 length>; got header {:?} and {} bytes in total", &bytes[..bytes.len().min(7)], bytes.len()),
         case.clone(),
       );
       return;
     }
+    let actual_len = bytes.len() - 7;
     let prefix = bytes[5] as usize | (bytes[6] as usize) << 8;
-    if prefix != exp_len {
+    if prefix != actual_len {
       self.rep.violation(
         "pack-length-prefix-wrong",
-        &format!("length prefix bytes {:02x} {:02x} read little-endian = {}, payload is {} bytes", bytes[5], bytes[6], prefix, exp_len),
+        &format!("length prefix bytes {:02x} {:02x} read little-endian = {}, payload is {} bytes", bytes[5], bytes[6], prefix, actual_len),
         case.clone(),
       );
+    }
+    if actual_len != exp_len {
+      // only a violation if the payload also differs as JSON (reported below)
+      self.rep.inc("payload_length_differs_from_model");
     }
     match serde_json::from_slice::<Value>(&bytes[7..]) {
       Ok(payload) => {
